@@ -90,6 +90,24 @@ func encodeRDP(v *wireVec) (*wireCase, error) {
 		payload = append(payload, neg(1, 2)...)
 	case "badtype":
 		payload = append(payload, neg(2, 1)...)
+	case "corr", "corr_short", "corr_missing", "corr_badid":
+		// RDP_NEG_REQ with CORRELATION_INFO_PRESENT (0x08), then RDP_NEG_CORRELATION_INFO (36 bytes)
+		nr := []byte{1, 0x08, 8, 0}
+		payload = append(payload, binary.LittleEndian.AppendUint32(nr, 1)...)
+		ci := []byte{0x06, 0x00, 36, 0}
+		id := filler(16, 1)
+		if ms_(m, "neg") == "corr_badid" {
+			id[0] = 0
+		}
+		ci = append(ci, id...)
+		ci = append(ci, make([]byte, 16)...)
+		switch ms_(m, "neg") {
+		case "corr_short":
+			ci = ci[:30]
+		case "corr_missing":
+			ci = nil
+		}
+		payload = append(payload, ci...)
 	}
 	total := 4 + 7 + len(payload)
 	decl := total
@@ -152,4 +170,87 @@ func encodeHTTP(v *wireVec) (*wireCase, error) {
 		c.cfg = []map[string]any{{"header": map[string][]string{"X-Test": {"*"}}}}
 	}
 	return c, nil
+}
+
+func init() {
+	wireEncoders["winbox"] = encodeWinbox
+	prev := wireEncoders["http"]
+	wireEncoders["http"] = func(v *wireVec) (*wireCase, error) {
+		if _, ok := v.Msg["junk"]; ok {
+			return encodeHTTPJunk(v)
+		}
+		if _, ok := v.Msg["h2"]; ok {
+			return encodeHTTP2(v)
+		}
+		return prev(v)
+	}
+}
+
+// encodeWinbox: MikroTik Winbox authentication message in chunks
+func encodeWinbox(v *wireVec) (*wireCase, error) {
+	m, cfg := v.Msg, v.Cfg
+	ulen := mi(m, "ulen")
+	user := "admin"
+	if ulen != 5 {
+		user = strings.Repeat("a", ulen)
+	}
+	if b, _ := m["romon"].(bool); b {
+		user += "+r"
+	}
+	content := []byte(user)
+	key := filler(32, 11)
+	for i := range key {
+		key[i] |= 0x80 // no NUL and no delimiter inside the key
+	}
+	switch ms_(m, "delim") {
+	case "ok":
+		content = append(content, 0)
+		content = append(content, key...)
+		content = append(content, byte(mi(m, "parity")))
+	case "missing":
+		content = append(content, 'x')
+		content = append(content, key...)
+		content = append(content, byte(mi(m, "parity")))
+	case "last":
+		// the only NUL is the very last byte
+		content = append(content, 'x')
+		content = append(content, key...)
+		content = append(content, 0)
+	}
+	var out []byte
+	first := true
+	for len(content) > 0 {
+		n := len(content)
+		if n > 255 {
+			n = 255
+		}
+		typ := byte(0xFF)
+		if first {
+			typ = byte(mi(m, "type"))
+			first = false
+		}
+		out = append(out, byte(n), typ)
+		out = append(out, content[:n]...)
+		content = content[n:]
+	}
+	c := &wireCase{module: "winbox", first: out}
+	cc := map[string]any{}
+	if l := mlist(cfg, "modes"); len(l) > 0 {
+		cc["modes"] = l
+	}
+	if s := ms_(cfg, "username"); s != "" {
+		cc["username"] = s
+	}
+	c.cfg = cc
+	return c, nil
+}
+
+func encodeHTTPJunk(v *wireVec) (*wireCase, error) {
+	n := mi(v.Msg, "junk")
+	b := []byte(strings.Repeat("ABCDEFGHIJKLMNOPQRSTUVWXYZ", 2)[:n])
+	if ms_(v.Msg, "eol") == "crlf" {
+		b = append(b, '\r')
+	}
+	b = append(b, '\n')
+	return &wireCase{module: "http", first: b, cfg: []map[string]any{}}, nil
 }
